@@ -24,8 +24,9 @@ def contracts(tier):
 
 
 def extra_obligations(tier):
-    return operators_c16.results()
-
+    _pu = solve.custom_result('paramuse:C16', 'pyiga/operators.py', 'all functions', __import__('pyvc.paramuse', fromlist=['x']).obligations(['pyiga/operators.py', 'pyiga/kronecker.py', 'pyiga/tensor.py'], 'paramuse'))
+    _r = operators_c16.results()
+    return list(_r) + [_pu]
 
 MANIFEST = {
     'category': 'other',
